@@ -75,4 +75,13 @@ TEXT.update({
          "note": TB + " Known finding (open): permute accepts sub-multisets; pinned by test_permute_1."},
 })
 
+TEXT.update({
+ "C21": {"ref": "DESIGN 5 C21", "technique": "sequence-view TLA+ specification of the LTerm container API; TLC's state graph over a bounded term universe becomes one implementation test per transition, judged by TLC (hash law asserted by the harness)",
+         "level": "LTermOps.tla specifies every list operation on the element sequence (improper tail as last element) and == as structural equality with variable identity; every (operation, operands) of the MC_LTerm universe and random deeper terms are executed on the real LTerm and compared by TLC. TLA+ has no hash values: 'equal terms hash equally' is asserted by the harness for every pair the specification declares equal.",
+         "note": TB},
+ "C23": {"ref": "DESIGN 5 C23", "technique": "panic accounting over the well-formed programs of every generator of the framework; the judge (TLC trace validation) rejects any panic record",
+         "level": "All seeded generators (which emit only well-formed programs) are run under catch_unwind with overflow checks on; a process that dies (stack overflow, abort) is isolated case by case. TLC's judge rejects every case whose end record is a panic. Every other check also rejects panics on its own TLC-enumerated cases.",
+         "note": TB + " Known finding (open): project second visit."},
+})
+
 NOT_APPLICABLE = {}
